@@ -650,7 +650,7 @@ KINDS = [('SetParent', 12), ('SetChildren', 9), ('SetLinks', 8), ('ChAppend', 9)
          ('ChMove', 8), ('ChSort', 4), ('ChReorder', 4), ('ChRemoveAll', 2), ('LnAppend', 5), ('LnRemove', 3),
          ('LnRemoveAll', 2), ('OpFloordiv', 9), ('OpShift', 7), ('LstShift', 5), ('LstSetParent', 2), ('LstSetChildren', 4), ('LstSetLinks', 4),
          ('WbsRemove', 2),
-         ('WbsRemoveAll', 2), ('SetEst', 1), ('SetPrio', 2), ('DeepLink', 5), ('SortNone', 3), ('Promote', 3), ('Diamond', 3), ('DeepUndo', 4), ('StaleList', 4)]
+         ('WbsRemoveAll', 2), ('SetEst', 1), ('SetPrio', 2), ('DeepLink', 5), ('SortNone', 3), ('Promote', 3), ('Diamond', 3), ('DeepUndo', 4), ('StaleList', 4), ('ReleaseReuse', 3)]
 P_ILLEGAL = 0.43
 P_STALE = 0.21      # share of list calls that ASK for a pooled facade; ~15 % find one
 
@@ -1435,6 +1435,33 @@ class Gen:
         else:
             second = ['ChRemoveAll', o, [V.tid(c)]], dict(how, facade=k, v=None)
         self.queue = [second]
+        return first
+
+    def g_ReleaseReuse(self, V):
+        """aims at a stale owner below a RELEASED subtree: a member m with descendants leaves its WBS (remove / left out
+        of an assignment), a new task re-using the id of an inner task g of the released subtree joins the WBS, then g
+        itself (not m) is brought back below a member - the id is taken, the call must be rejected"""
+        rng = self.rng
+        how = {'aim': 'release-reuse'}
+        cands = []
+        for wi, r in enumerate(V.wr):
+            for m in V.sub(r)[1:]:
+                inner = [g for g in V.sub(m) if g != m]
+                if inner:
+                    cands.append((wi, r, m, inner))
+        if not cands:
+            return None
+        wi, r, m, inner = rng.choice(cands)
+        g = rng.choice(inner)
+        n = V.n
+        stay = [x for x in V.sub(r)[1:] if x not in V.sub(m)]
+        p = rng.choice(stay) if stay and rng.random() < 0.6 else r
+        first = rng.choice([(['WbsRemove', wi, m], how), (['ChRemove', V.par(m), m], dict(how, facade=None))])
+        back = rng.choice([(['ChAppend', p, g], dict(how, facade=None)), (['SetParent', g, None if p == r else p], dict(how, v=None)),
+                           (['OpFloordiv', p, [g]], dict(how, form='list', v=None))])
+        if back[0][0] == 'SetParent' and p == r:
+            back = (['ChAppend', r, g], dict(how, facade=None))
+        self.queue = [(['NewTask', V.tid(g), None, 'r', None], {}), (['ChAppend', r, n], dict(how, facade=None)), back]
         return first
 
     def g_Diamond(self, V):
